@@ -25,8 +25,10 @@ structure S where
 
 def init : S := ⟨System.init, [], [], [], []⟩
 
+/-- a well-formed address that the access-control service does not report as black-listed
+    (`{A5}` is the black-listed account of the harness) -/
 def isAddrSym (s : String) : Bool :=
-  s.startsWith "{A" && s.endsWith "}"
+  s.startsWith "{A" && s.endsWith "}" && s != "{A5}"
 
 def methodsTbl (f : String) : Option MethodInfo :=
   if f = "transfer" then some ⟨4, .tx⟩
@@ -75,7 +77,7 @@ def learn (s : S) (p : PReq) : S :=
   { s with sigs := s.sigs ++ p.sigs.filter (fun x => !(s.sigs.any (·.1 = x.1))),
            keys := s.keys ++ p.keys.filter (fun x => !(s.keys.any (·.1 = x.1))) }
 
-def addrs : List String := ["{A0}", "{A1}", "{A2}", "{A3}", "{AI}"]
+def addrs : List String := ["{A0}", "{A1}", "{A2}", "{A3}", "{A4}", "{AI}"]
 
 def dump (s : S) : String :=
   let bals := ",".intercalate (addrs.map (fun a => s!"{a}={s.st.led.bal a}"))
